@@ -31,6 +31,11 @@ Proof. vm_compute. repeat split. Qed.
 Lemma ob_once : t_once_recheck = true.
 Proof. vm_compute. reflexivity. Qed.
 
+(* the header deadline is derived from the configured timeout in the shape Timeout.v transcribes (the translator
+   refuses any other shape, so this flag can only be true) *)
+Lemma ob_timeout_shape : t_timeout_bounds_header_read = true.
+Proof. vm_compute. reflexivity. Qed.
+
 (* slices stay inside the 232-byte buffer (a slice beyond it would be a run-time panic) *)
 Lemma ob_buffer_bounds :
   (c_dump_hi src_cfg <= c_buf_len src_cfg /\ c_v1_cap src_cfg + 1 <= c_buf_len src_cfg /\
